@@ -800,6 +800,11 @@ func (c *Client) retry(ctx context.Context, command *proto.Command, nodeAddr str
 		if errOuter == nil {
 			break
 		}
+		if errors.Is(errOuter, os.ErrDeadlineExceeded) {
+			// The command may have reached the node and still be executing there.
+			// Sending it again would execute it a second time.
+			return nil, nRetries, errOuter
+		}
 		nRetries++
 		stats.Add(numClientRetries, 1)
 
